@@ -9,23 +9,36 @@ PROPS = "Props/C01.v"
 COQ_CHECK = ("Model.C01", "check")
 COQ_FALLBACK = None
 COQ_IMPORTS = ""
-SHARD = 250
+SHARD = 1000
 RULE = ("every boolean mask (2^(H*W), all-masked excluded at class level) of every shape in the exhaustive sub-space, values "
         "1+y*W+x (any reordering / misplaced zero is visible) and signed random integers; util functions and the public classes "
         "Array2D / Grid2D / VectorYX2D / Array1D / Grid1D with input form x store_native, Mask2D.derive_indexes.*; random masks up "
-        "to 12x12. Non-trivial = mask has both masked and unmasked pixels; distinct = distinct JSON input.")
+        "to 12x12. Phase 2: HISTORIES -- one object (all five classes, both input forms, both storage modes) followed through "
+        "arithmetic (arr + c, c - arr, arr * c, -arr, copy), with_new_array(raw with non-zero masked entries), a new object on "
+        "the same Mask2D object, in-place element assignment, .native / .slim chains, reading (slim, native) after every step "
+        "and twice; one Mask2D followed through in-place edits mask[y, x] = b / copy() / with_new_array / invert(), re-reading "
+        "derive_indexes.native_for_slim / unmasked_slim / masked_slim and Array2D(values, mask).slim / .native after every step; "
+        "values scaled by 2**-40 / 2**40 (exact), value streams containing exact zeros; the caller's arrays are re-read after "
+        "the calls. Non-trivial = mask has both masked and unmasked pixels; distinct = distinct JSON input.")
 EXHAUSTIVE = {
     "quick": "util level: all masks of all shapes with H*W <= 10; class level: all masks with >=1 unmasked pixel, H*W <= 8, "
-             "4 (input form, store_native) modes rotating over Array2D/Grid2D/VectorYX2D; 1-D: all masks of length <= 8",
-    "thorough": "util level: H*W <= 14; class level: H*W <= 12; 1-D: length <= 12",
+             "4 (input form, store_native) modes rotating over Array2D/Grid2D/VectorYX2D; 1-D: all masks of length <= 8; "
+             "histories: one object history and one mask history per mask with >=1 unmasked pixel and H*W <= 6, for H*W in {7, 8} one "
+             "third of the masks gets an object history and one third a mask history; 1-D: one object history per mask of length <= 8",
+    "thorough": "util level: H*W <= 14; class level: H*W <= 12; 1-D: length <= 12; histories: two per mask, H*W <= 10 (1-D: length <= 10)",
 }
 TRUSTED = ["hand-written Gallina model coq/Model/C01.v of array_2d_util / grid_2d_util / array_1d_util / mask_2d_util / mask_1d_util "
-           "conversion loops, tied to /repo by this correspondence run (comparison evaluated inside Coq by vm_compute)",
+           "conversion loops, of the .slim / .native accessors (re-construction from the object's current stored array) and of the "
+           "history steps (to_new_array arithmetic, with_new_array, element assignment, copy, Mask2D edits), tied to /repo by this "
+           "correspondence run (comparison evaluated inside Coq by vm_compute)",
            "numpy element assignment / np.zeros / np.stack semantics (lists of lists in the model)",
-           "values are modelled polymorphically: the code performs no arithmetic on them except `*= invert(mask)` (modelled as "
-           "replacement by zero; differs from IEEE only for inf/NaN inputs at masked positions: nan*0 = nan)"]
-ASSUMPTIONS = ["finite real values (no inf/NaN at masked positions of native inputs)",
-               "complex / over-sampled variants are not modelled"]
+           "values are modelled polymorphically: the code performs no arithmetic on them except zeroing the masked entries of a "
+           "native input (assignment of 0; inf / NaN at masked entries are part of the input streams)",
+           "Python-level relations (py_ok): every reading taken twice, objects re-read at the end of a history, the caller's arrays "
+           "compared with copies taken before the call, `.array` of a constructed object = the form it was asked to store"]
+ASSUMPTIONS = ["values at UNMASKED pixels are finite reals (inf / NaN only at masked entries)",
+               "complex / over-sampled variants are not modelled",
+               "default configuration (general.structures.native_binned_only = false)"]
 
 def shapes_upto(n):
     return [(h, w) for h in range(1, n + 1) for w in range(1, n + 1) if h * w <= n]
@@ -36,37 +49,141 @@ def all_masks(h, w):
 
 def vals(h, w, k):
     if k == 0: return [[1 + y * w + x for x in range(w)] for y in range(h)]
+    if k == 2: return [[(y * w + 2 * x + y) % 3 - 1 for x in range(w)] for y in range(h)]      # exact zeros and ties
+    if k == 3: return [[(-1) ** (x + y) * ((3 + 2 * x + 7 * y) * 2 ** 30 + 1) for x in range(w)] for y in range(h)]   # > 24 significant bits
     return [[(-1) ** (x + y) * (3 + 2 * x + 7 * y + k) for x in range(w)] for y in range(h)]
+
+SCALES = [0, 0, -40, 40]            # values are multiplied by 2**e (exact in binary floating point) and divided back
+KINDS = ["array", "grid", "vector"]
+# inf / NaN at MASKED entries of native inputs and of natively stored arrays are part of the streams for all five classes
+# (zeroing is by assignment since /repo e8113b3 (arrays) and 6af65c9 (grids, vector fields, 1-D grids)).
+FORMS = [0, 0, 0, 1, 2, 3]          # entry form of the mask / of the values: see make_mask / give
+AFF = ["add", "radd", "sub", "rsub", "mul", "rmul", "neg", "copy"]
+
+def unmasked(m): return [(y, x) for y, r in enumerate(m) for x, b in enumerate(r) if not b]
+def masked(m): return [(y, x) for y, r in enumerate(m) for x, b in enumerate(r) if b]
+
+def gen_ops(rng, m, sn, two_planes, n_ops=None, nonfinite=True):
+    """a random history of an object on mask m (list of rows); tracks which form is stored for the in-place assignments"""
+    um, mk = unmasked(m), masked(m)
+    is_native = sn
+    ops = []
+    for _ in range(n_ops or rng.choice([2, 3, 3, 4])):
+        c = rng.choice(["aff"] * 7 + ["native"] * 3 + ["slim"] * 2 + ["new"] * 2 + ["build"] * 2 + ["set"] * 4 + ["nf"] * 3)
+        if c == "nf" and not nonfinite: c = "aff"
+        if c == "nf":
+            # steps that put inf / NaN into MASKED entries of a natively stored array (never into an unmasked one)
+            kind = rng.choice(["divself", "newnf", "setnf"])
+            if kind == "setnf" and not (is_native and mk): kind = "divself"
+            if kind == "divself": ops.append(["nf", "divself"])
+            elif kind == "newnf": ops.append(["nf", "newnf", rng.randint(0, 9)]); is_native = True
+            else:
+                y, x = rng.choice(mk); ops.append(["nf", "setnf", y, x, rng.choice(["inf", "-inf", "nan"])])
+        elif c == "aff":
+            kind = rng.choice(AFF)
+            cst = rng.choice([5, 5, -3, 2, 1, 7])
+            if kind in ("mul", "rmul"): cst = rng.choice([2, -1, 3, 0])
+            if two_planes and kind in ("add", "sub") and rng.random() < 0.4: cst = [cst, rng.choice([-2, 4, 9])]
+            ops.append(["aff", kind, cst])
+        elif c in ("native", "slim"):
+            ops.append([c]); is_native = c == "native"
+        elif c == "new":
+            ni = rng.random() < 0.6
+            ops.append(["new", ni, rng.randint(0, 9)]); is_native = ni
+        elif c == "build":
+            ni, bsn = rng.random() < 0.5, rng.random() < 0.5
+            ops.append(["build", ni, rng.randint(0, 9), bsn]); is_native = bsn
+        else:
+            if is_native:
+                y, x = rng.choice(mk) if (mk and rng.random() < 0.6) else rng.choice(um + mk)
+                ops.append(["set", 0, y, x, rng.choice([77, -8, 0, 1])])
+            else:
+                ops.append(["set", rng.randrange(len(um)), 0, 0, rng.choice([77, -8, 0, 1])])
+    return ops
+
+def gen_mops(rng, m):
+    h, w = len(m), len(m[0])
+    cur = [list(r) for r in m]
+    ops = []
+    for _ in range(rng.choice([2, 3, 3, 4])):
+        c = rng.choice(["set"] * 6 + ["copy"] * 2 + ["new", "invert"])
+        if c == "set":
+            y, x = rng.randrange(h), rng.randrange(w)
+            b = not cur[y][x] if rng.random() < 0.8 else cur[y][x]
+            if b and len(unmasked(cur)) == 1 and not cur[y][x]: b = False          # keep >= 1 unmasked pixel
+            cur[y][x] = b; ops.append(["set", y, x, b])
+        elif c == "copy":
+            ops.append(["copy"])
+        elif c == "new":
+            new = [[rng.random() < 0.4 for _ in range(w)] for _ in range(h)]
+            new[rng.randrange(h)][rng.randrange(w)] = False
+            cur = new; ops.append(["new", [list(r) for r in new]])
+        else:
+            if not masked(cur): continue                                         # invert would mask everything
+            cur = [[not b for b in r] for r in cur]; ops.append(["invert"])
+    if not ops: ops.append(["copy"])
+    return ops
 
 def gen_inputs(tier, rng):
     big = tier == "thorough"
-    nu, nc, n1 = (14, 12, 12) if big else (10, 8, 8)
+    nu, nc, n1, nh = (14, 12, 12, 10) if big else (10, 8, 8, 8)
     i = 0
     for (h, w) in shapes_upto(nu):
         for m in all_masks(h, w):
             i += 1
-            yield {"op": "util", "m": m, "k": i % 2}
-    kinds = ["array", "grid", "vector"]
+            yield {"op": "util", "m": m, "k": i % 4}
     for (h, w) in shapes_upto(nc):
         for m in all_masks(h, w):
             if all(all(r) for r in m): continue
             i += 1
-            yield {"op": kinds[i % 3], "m": m, "ni": bool(i & 1), "sn": bool(i & 2), "k": (i >> 2) % 2}
+            yield {"op": KINDS[i % 3], "m": m, "ni": bool(i & 1), "sn": bool(i & 2), "k": (i >> 2) % 4, "e": SCALES[(i >> 4) % 4],
+                   "mt": (i // 3) % 4, "vt": (i // 5) % 4, "nf": (i // 7) % 3 == 0}
             if big or i % 5 == 0:
                 yield {"op": "array", "m": m, "ni": not bool(i & 1), "sn": not bool(i & 2), "k": 1}
     for n in range(1, n1 + 1):
         for bits in itertools.product([False, True], repeat=n):
             if all(bits): continue
             i += 1
-            yield {"op": "array1d" if i % 3 else "grid1d", "r": list(bits), "ni": bool(i & 1), "sn": bool(i & 2)}
+            yield {"op": "array1d" if i % 3 else "grid1d", "r": list(bits), "ni": bool(i & 1), "sn": bool(i & 2), "e": SCALES[(i >> 2) % 4],
+                   "mt": (i // 3) % 4, "vt": (i // 5) % 4, "nf": (i // 7) % 3 == 0}
             yield {"op": "array1d", "r": list(bits), "ni": not bool(i & 1), "sn": bool(i & 4)}
-    for _ in range(2000 if big else 150):
+    # ---- histories (phase 2): quick = every mask with H*W <= 6 gets an object history AND a mask history, of the masks with
+    #      H*W in {7, 8} one third gets an object history and one third a mask history; thorough = two of each for every
+    #      mask with H*W <= 10
+    hk = ["array", "grid", "array", "vector"]
+    for (h, w) in shapes_upto(nh):
+        for m in all_masks(h, w):
+            if all(all(r) for r in m): continue
+            for _ in range(2 if big else 1):
+                i += 1
+                both = big or h * w <= 6
+                if both or i % 3 == 0:
+                    cls = rng.choice(hk); sn = rng.random() < 0.6
+                    yield {"op": "hist", "cls": cls, "m": m, "ni": rng.random() < 0.5, "sn": sn, "k": rng.randrange(4), "e": rng.choice(SCALES),
+                           "mt": rng.choice(FORMS), "vt": rng.choice(FORMS), "ops": gen_ops(rng, m, sn, cls != "array")}
+                if both or i % 3 == 1:
+                    yield {"op": "maskhist", "m": m, "ops": gen_mops(rng, m)}
+    for n in range(1, nh + 1):
+        for bits in itertools.product([False, True], repeat=n):
+            if all(bits): continue
+            i += 1
+            sn = rng.random() < 0.6; c1 = "array1d" if i % 3 else "grid1d"
+            yield {"op": "hist", "cls": c1, "m": [list(bits)], "ni": rng.random() < 0.5, "sn": sn,
+                   "k": rng.randrange(4), "e": rng.choice(SCALES), "mt": rng.choice(FORMS), "vt": rng.choice(FORMS),
+                   "ops": gen_ops(rng, [list(bits)], sn, False)}
+    for _ in range(1500 if big else 120):
         h, w = rng.randint(3, 12), rng.randint(3, 12)
         p = rng.choice([0.1, 0.3, 0.5, 0.8])
         m = [[rng.random() < p for _ in range(w)] for _ in range(h)]
         if all(all(r) for r in m): m[rng.randrange(h)][rng.randrange(w)] = False
         yield {"op": "util", "m": m, "k": 1}
-        yield {"op": rng.choice(kinds), "m": m, "ni": rng.random() < 0.5, "sn": rng.random() < 0.5, "k": rng.randint(0, 1)}
+        yield {"op": rng.choice(KINDS), "m": m, "ni": rng.random() < 0.5, "sn": rng.random() < 0.5, "k": rng.randint(0, 3),
+               "e": rng.choice(SCALES), "mt": rng.choice(FORMS), "vt": rng.choice(FORMS)}
+        if not big and _ % 3: continue
+        sn = rng.random() < 0.6; cls = rng.choice(hk)
+        yield {"op": "hist", "cls": cls, "m": m, "ni": rng.random() < 0.5, "sn": sn, "k": rng.randint(0, 3), "e": rng.choice(SCALES),
+               "mt": rng.choice(FORMS), "vt": rng.choice(FORMS), "ops": gen_ops(rng, m, sn, cls != "array")}
+        yield {"op": "maskhist", "m": m, "ops": gen_mops(rng, m)}
 
 def cmask(m): return clist([clist([cbool(b) for b in r]) for r in m])
 def cgrid(g): return clist([clist([cz(v) for v in r]) for r in g])
@@ -76,42 +193,317 @@ def ints2(a): return [[int(round(float(x))) for x in r] for r in np.asarray(a)]
 
 def exact(a):
     a = np.asarray(a, dtype=float)
+    if not np.all(np.isfinite(a)): raise AssertionError("inf / NaN in a form read from the implementation (masked entries must read 0)")
     if not np.all(a == np.round(a)): raise AssertionError("non-integer value in implementation output")
+
+def descale(a, sc):
+    """the implementation's values divided by the power-of-two scale (exact); must be integers"""
+    a = np.array(a, dtype=float) / sc
+    exact(a)
+    return a
+
+class Checks:
+    """relations that only Python can see (the same object read twice, the caller's arrays after the call)"""
+    def __init__(self): self.bad = []
+    def same(self, what, a, b):
+        a, b = np.asarray(a), np.asarray(b)
+        if a.shape != b.shape or not np.array_equal(a, b, equal_nan=a.dtype.kind == "f" and b.dtype.kind == "f"): self.bad.append(what)
+    def result(self, r):
+        if self.bad:
+            r["py_ok"] = False; r["detail"] = "; ".join(self.bad[:6])
+        return r
+
+
+def make_mask(aa, ma, mt, one_d=False):
+    """the same mask through different entry forms: ndarray / python list / invert=True of the complement / 0-1 integers"""
+    M = aa.Mask1D if one_d else aa.Mask2D
+    if mt == 1: return M(mask=ma.tolist(), pixel_scales=1.0)
+    if mt == 2: return M(mask=np.invert(ma), pixel_scales=1.0, invert=True)
+    if mt == 3: return M(mask=ma.astype(int), pixel_scales=1.0)
+    return M(mask=ma, pixel_scales=1.0)
+
+def give(values, vt, exact_scale, build_other):
+    """the same values through different entry forms: float ndarray / python list / integer ndarray / an existing
+    structure of the other storage mode on the same mask"""
+    if vt == 1: return values.tolist()
+    if vt == 2 and exact_scale: return values.astype(int)
+    if vt == 3: return build_other(values)
+    return values
+
+def poison(values, ma):
+    """inf / NaN at the masked entries of a native input (float): the forms read from the object must not depend on them"""
+    bad = [np.inf, np.nan, -np.inf]
+    for j, idx in enumerate(zip(*np.nonzero(ma))): values[idx] = bad[j % 3]
+    return values
+
+def stored_ok(chk, obj, sn, slim_read, native_read, what):
+    """`.array` of a freshly constructed object is the form it was asked to store"""
+    a = np.asarray(obj.array)
+    ref = np.asarray(native_read if sn else slim_read)
+    if a.shape != ref.shape or not np.array_equal(a, ref): chk.bad.append(what + ": .array is not the stored " + ("native" if sn else "slim") + " form")
+
+# ----------------------------------------------------------------------------- histories of one object
+def raw_native(h, w, t, plane): return [[(-1) ** (x + y + plane) * (11 + 3 * x + 5 * y + t + 20 * plane) for x in range(w)] for y in range(h)]
+def raw_slim(n, t, plane): return [200 + 7 * k + t + 50 * plane for k in range(n)]
+
+def run_hist(aa, inp):
+    cls = inp["cls"]; m = inp["m"]; h, w = len(m), len(m[0]); k = inp.get("k", 0); sc = 2.0 ** inp.get("e", 0)
+    one_d = cls in ("array1d", "grid1d"); planes = 2 if cls in ("grid", "vector") else 1
+    ma = np.array(m, dtype=bool); ma0 = ma.copy()
+    um = unmasked(m); cnt = len(um)
+    chk = Checks()
+    mt, vt = inp.get("mt", 0), inp.get("vt", 0)
+    m1 = ma[0].copy() if one_d else None
+    mask = make_mask(aa, m1 if one_d else ma, mt, one_d)
+    C = {"array": aa.Array2D, "grid": aa.Grid2D, "vector": aa.VectorYX2D, "array1d": aa.Array1D, "grid1d": aa.Grid1D}[cls]
+    vgrid = None
+    if cls == "vector": vgrid = aa.Grid2D.from_mask(mask=mask)
+
+    def as_values(ni, nat_planes, slim_planes):
+        """the array handed to the implementation: native [h, w(, 2)] or slim [n(, 2)], scaled"""
+        src = nat_planes if ni else slim_planes
+        a = [np.array(p, dtype=float) * sc for p in src]
+        if one_d: return a[0][0] if ni else a[0]
+        return np.stack(a, axis=-1) if planes == 2 else a[0]
+    def build(values, sn, native_grid=None):
+        if cls == "vector":
+            if native_grid is None: native_grid = np.ndim(values) == 3
+            return C(values=values, grid=vgrid.native if native_grid else vgrid, mask=mask, store_native=sn)
+        return C(values=values, mask=mask, store_native=sn)
+    def read(obj, stored=None):
+        s1, n1 = np.array(obj.slim), np.array(obj.native)
+        s2, n2 = np.array(obj.slim), np.array(obj.native)           # the same object read twice
+        if stored is not None: stored_ok(chk, obj, stored, s1, n1, "after construction")
+        chk.same("second read of .slim differs", s1, s2); chk.same("second read of .native differs", n1, n2)
+        s, n = descale(s1, sc), descale(n1, sc)
+        if one_d:
+            if s.shape != (cnt,) or n.shape != (w,): raise AssertionError(f"shape of 1-D forms {s.shape} {n.shape}")
+            return [(ints(s), [ints(n)])]
+        if planes == 1:
+            if s.shape != (cnt,) or n.shape != (h, w): raise AssertionError(f"shape of forms {s.shape} {n.shape}")
+            return [(ints(s), ints2(n))]
+        if s.shape != (cnt, 2) or n.shape != (h, w, 2): raise AssertionError(f"shape of forms {s.shape} {n.shape}")
+        return [(ints(s[:, q]), ints2(n[:, :, q])) for q in range(planes)]
+
+    nat0 = [vals(h, w, k)] + ([[[7 - v for v in r] for r in vals(h, w, k)]] if planes == 2 else [])
+    slim0 = [[nat0[q][y][x] + 1000 for (y, x) in um] for q in range(planes)]
+    ni, sn = inp["ni"], inp["sn"]
+    values = as_values(ni, nat0, slim0); values0 = values.copy()
+    # the caller's array itself, not a copy (or a list / an integer array / a structure of the other storage mode)
+    obj = build(give(values, vt, inp.get("e", 0) == 0, lambda v: build(v, not sn)), sn, native_grid=ni)
+    is_native = sn
+    outs = [read(obj, stored=sn)]
+    zops = [[] for _ in range(planes)]
+    older = [(obj, outs[-1])]                                          # objects that no later step edits in place
+    edited = False
+    def caller_arrays():
+        # constructors, accessors and arithmetic leave the caller's array alone (a slim 1-D input is stored as it is, so
+        # the user's own in-place assignments may show through it: checked only up to the first assignment)
+        chk.same("the caller's values array was modified", values, values0)
+    for op in inp["ops"]:
+        if op[0] == "aff":
+            kind, c = op[1], op[2]
+            cs = c if isinstance(c, list) else [c] * planes
+            cv = (np.array(cs, dtype=float) if isinstance(c, list) else float(c))
+            if kind == "add": new = obj + cv * sc; ab = [(1, x) for x in cs]
+            elif kind == "radd": new = float(c) * sc + obj; ab = [(1, x) for x in cs]
+            elif kind == "sub": new = obj - cv * sc; ab = [(1, -x) for x in cs]
+            elif kind == "rsub": new = float(c) * sc - obj; ab = [(-1, x) for x in cs]
+            elif kind == "mul": new = obj * float(c); ab = [(c, 0)] * planes
+            elif kind == "rmul": new = float(c) * obj; ab = [(c, 0)] * planes
+            elif kind == "neg": new = -obj; ab = [(-1, 0)] * planes
+            else: new = obj.copy(); ab = [(1, 0)] * planes
+            if type(new) is not type(obj): raise AssertionError(f"{kind} returned a {type(new).__name__}")
+            obj = new
+            for q in range(planes): zops[q].append(f"(ZAff {cz(ab[q][0])} {cz(ab[q][1])})")
+        elif op[0] == "nf" and op[1] == "divself":
+            # arr / arr: 1 at every unmasked pixel, 0/0 = NaN at the (zero) masked pixels of a natively stored array;
+            # only when no unmasked value is zero, else a plain copy
+            if all(v != 0 for o in outs[-1] for v in o[0]):
+                with np.errstate(all="ignore"): obj = (obj / obj) * sc
+                ab = (0, 1)
+            else: obj = obj.copy(); ab = (1, 0)
+            for q in range(planes): zops[q].append(f"(ZAff {cz(ab[0])} {cz(ab[1])})")
+        elif op[0] == "nf" and op[1] == "newnf":
+            t = op[2]
+            rn = [raw_native(h, w, t, q) for q in range(planes)]; rs = [raw_slim(cnt, t, q) for q in range(planes)]
+            raw = as_values(True, rn, rs)
+            bad = [np.inf, np.nan, -np.inf]
+            for j, (y, x) in enumerate(masked(m)):
+                if one_d: raw[x] = bad[j % 3]
+                else: raw[y, x] = bad[j % 3]
+            obj = obj.with_new_array(raw); is_native = True
+            # the masked entries of the raw array are printed as finite placeholders: the model's readings do not depend on them
+            for q in range(planes): zops[q].append(f"(ZNew true {cgrid(rn[q])} {cvec(rs[q])})")
+        elif op[0] == "nf" and op[1] == "setnf":
+            _, _, y, x, v = op
+            older = []
+            if not edited: caller_arrays()
+            edited = True
+            fv = float(v) if np.asarray(obj.array).dtype.kind == "f" else 12345      # an integer array cannot hold inf
+            if one_d: obj[x] = fv
+            else: obj[y, x] = fv
+            for q in range(planes): zops[q].append(f"(ZSet 0%nat {cnat(y)} {cnat(x)} 0)")
+        elif op[0] in ("native", "slim"):
+            obj = obj.native if op[0] == "native" else obj.slim
+            is_native = op[0] == "native"
+            for q in range(planes): zops[q].append("ZNative" if is_native else "ZSlim")
+        elif op[0] in ("new", "build"):
+            rni, t = op[1], op[2]
+            rn = [raw_native(h, w, t, q) for q in range(planes)]; rs = [raw_slim(cnt, t, q) for q in range(planes)]
+            raw = as_values(rni, rn, rs)
+            if op[0] == "new":
+                obj = obj.with_new_array(raw); is_native = rni
+                for q in range(planes): zops[q].append(f"(ZNew {cbool(rni)} {cgrid(rn[q])} {cvec(rs[q])})")
+            else:
+                raw0 = raw.copy()
+                if cls == "vector":
+                    obj = C(values=raw, grid=vgrid.native if rni else vgrid, mask=obj.mask, store_native=op[3])
+                else:
+                    obj = C(values=raw, mask=obj.mask, store_native=op[3])     # the SAME mask object, different values
+                chk.same("constructor changed the caller's values array", raw, raw0)
+                is_native = op[3]
+                for q in range(planes): zops[q].append(f"(ZBuild {cbool(rni)} {cgrid(rn[q])} {cvec(rs[q])} {cbool(op[3])})")
+        elif op[0] == "set":
+            _, ks, y, x, v = op
+            vs = [v, v + 3][:planes]
+            val = float(v) * sc if planes == 1 else [float(u) * sc for u in vs]
+            # everything read so far from other objects must not be re-read after an in-place edit (aliasing is not C01's business)
+            older = []
+            if not edited: caller_arrays()
+            edited = True
+            if is_native:
+                if one_d: obj[x] = val
+                else: obj[y, x] = val
+            else: obj[ks] = val
+            for q in range(planes): zops[q].append(f"(ZSet {cnat(ks)} {cnat(y)} {cnat(x)} {cz(vs[q])})")
+        else: raise ValueError(op)
+        with np.errstate(all="ignore"):
+            outs.append(read(obj, stored=is_native if op[0] in ("native", "slim", "build") else None))
+        older.append((obj, outs[-1]))
+    # objects created along the way, read again at the end
+    for j, (o, exp) in enumerate(older):
+        again = read(o)
+        if again != exp: chk.bad.append(f"object {j} of the history reads differently at the end")
+    if not edited: caller_arrays()
+    chk.same("the caller's mask array was modified", ma, ma0)
+    chk.same("the Mask object was modified", np.array(mask), ma0[0] if one_d else ma0)
+    if one_d: chk.same("the caller's mask array was modified", m1, ma0[0])
+    cases = []
+    for q in range(planes):
+        co = clist(["(" + cvec(o[q][0]) + ", " + (cvec(o[q][1][0]) if one_d else cgrid(o[q][1])) + ")" for o in outs])
+        if one_d:
+            cases.append(f"(KHist1 {clist([cbool(b) for b in m[0]])} {cbool(ni)} {cbool(sn)} {cvec(nat0[q][0])} {cvec(slim0[q])} "
+                         f"{clist(zops[q])} {co})")
+        else:
+            cases.append(f"(KHist {cmask(m)} {cbool(ni)} {cbool(sn)} {cgrid(nat0[q])} {cvec(slim0[q])} {clist(zops[q])} {co})")
+    return chk.result({"coq": cases[0], "extra_coq": cases[1:], "out": outs, "kind": "hist:" + cls,
+                       "nontrivial": bool(ma.any() and not ma.all())})
+
+# ----------------------------------------------------------------------------- histories of one Mask2D
+def run_maskhist(aa, inp):
+    m = inp["m"]; h, w = len(m), len(m[0])
+    ma = np.array(m, dtype=bool); ma0 = ma.copy()
+    native = vals(h, w, 0)
+    nv = np.array(native, dtype=float)
+    chk = Checks()
+    mask = aa.Mask2D(mask=ma, pixel_scales=1.0)
+    cur = [list(r) for r in m]                                       # what the mask holds now, tracked by the harness
+    def read(mk):
+        di = mk.derive_indexes
+        nfs = np.asarray(di.native_for_slim).reshape(-1, 2)
+        u, k_ = di.unmasked_slim, di.masked_slim
+        chk.same("second read of native_for_slim differs", nfs, np.asarray(mk.derive_indexes.native_for_slim).reshape(-1, 2))
+        cnt = len(unmasked(cur))
+        a1 = aa.Array2D(values=nv, mask=mk)
+        a2 = aa.Array2D(values=np.arange(1000.0, 1000.0 + cnt), mask=mk)
+        s1, n2 = np.array(a1.slim), np.array(a2.native)
+        exact(s1); exact(n2)
+        return ([[int(a), int(b)] for a, b in nfs], ints(u), ints(k_), ints(s1), ints2(n2))
+    outs = [read(mask)]
+    left = []                                                        # masks left behind by copy / new / invert: must keep their state
+    cops = []
+    for op in inp["ops"]:
+        if op[0] == "set":
+            _, y, x, b = op
+            mask[y, x] = b; cur[y][x] = b
+            cops.append(f"(MSet {cnat(y)} {cnat(x)} {cbool(b)})")
+        elif op[0] == "copy":
+            left.append((mask, outs[-1], [list(r) for r in cur])); mask = mask.copy(); cops.append("MCopy")
+        elif op[0] == "new":
+            left.append((mask, outs[-1], [list(r) for r in cur]))
+            mask = mask.with_new_array(np.array(op[1], dtype=bool)); cur = [list(r) for r in op[1]]
+            cops.append(f"(MNew {cmask(op[1])})")
+        elif op[0] == "invert":
+            left.append((mask, outs[-1], [list(r) for r in cur]))
+            mask = mask.invert(); cur = [[not b for b in r] for r in cur]; cops.append("MInvert")
+        else: raise ValueError(op)
+        if not np.array_equal(np.array(mask), np.array(cur, dtype=bool)):
+            raise AssertionError("the mask does not hold the edited contents")
+        outs.append(read(mask))
+    final = cur
+    for j, (mk, exp, c) in enumerate(left):
+        cur = c
+        if read(mk) != exp: chk.bad.append(f"mask {j} left behind by copy/new/invert reads differently at the end")
+    cur = final
+    chk.same("the caller's mask array was modified", ma, ma0)
+    def cobs(o):
+        return ("(" + clist([ctup([cnat(a), cnat(b)]) for a, b in o[0]]) + ", " + clist([cnat(x) for x in o[1]]) + ", "
+                + clist([cnat(x) for x in o[2]]) + ", " + cvec(o[3]) + ", " + cgrid(o[4]) + ")")
+    coq = f"(KMaskHist {cmask(m)} {cgrid(native)} {clist(cops)} {clist([cobs(o) for o in outs])})"
+    return chk.result({"coq": coq, "out": outs, "kind": "maskhist", "nontrivial": True})
 
 def run_case(inp):
     aa = import_aa()
     from autoarray.structures.arrays import array_2d_util
     from autoarray.mask import mask_2d_util, mask_1d_util
     op = inp["op"]
+    if op == "hist": return run_hist(aa, inp)
+    if op == "maskhist": return run_maskhist(aa, inp)
+    sc = 2.0 ** inp.get("e", 0)
+    chk = Checks()
     if op in ("array1d", "grid1d"):
         r = inp["r"]; n = len(r)
         native = [5 + 3 * x for x in range(n)]
         slim = [v for v, b in zip(native, r) if not b]
         slim_in = [v + 100 for v in slim]
-        mask = aa.Mask1D(mask=np.array(r), pixel_scales=1.0)
-        values = np.array(native if inp["ni"] else slim_in, dtype=float)
+        ra = np.array(r)
+        mask = make_mask(aa, ra, inp.get("mt", 0), one_d=True)
+        values = np.array(native if inp["ni"] else slim_in, dtype=float) * sc
+        nf = bool(inp.get("nf")) and inp["ni"]
+        if nf: poison(values, ra)
+        values0 = values.copy()
         cls = aa.Array1D if op == "array1d" else aa.Grid1D
-        obj = cls(values=values.copy(), mask=mask, store_native=inp["sn"])
-        os_, on_ = obj.slim, obj.native
-        exact(os_); exact(on_)
+        obj = cls(values=give(values, inp.get("vt", 0), sc == 1.0 and not nf, lambda v: cls(values=v, mask=mask, store_native=not inp["sn"])),
+                  mask=mask, store_native=inp["sn"])
+        stored_ok(chk, obj, inp["sn"], obj.slim, obj.native, op)
+        os_, on_ = descale(obj.slim, sc), descale(obj.native, sc)
+        chk.same("the caller's values array was modified", values, values0)
+        chk.same("the caller's mask array was modified", ra, np.array(r))
+        chk.same("second read of .native differs", on_, descale(obj.native, sc))
         out = [ints(os_), ints(on_)]
         nfs = mask_1d_util.native_index_for_slim_index_1d_from(mask_1d=np.array(r))
         coq = (f"KArray1 {clist([cbool(b) for b in r])} {cbool(inp['ni'])} {cbool(inp['sn'])} {cvec(native)} {cvec(slim_in)} "
                f"{cvec(out[0])} {cvec(out[1])}")
         # the second, cheap case rides along as its own case through `extra`
-        return {"coq": "(" + coq + ")", "out": out, "kind": op, "nontrivial": any(r),
-                "extra_coq": ["(KNativeForSlim1 " + clist([cbool(b) for b in r]) + " " + clist([cnat(x) for x in ints(nfs)]) + ")"]}
+        return chk.result({"coq": "(" + coq + ")", "out": out, "kind": op, "nontrivial": any(r),
+                "extra_coq": ["(KNativeForSlim1 " + clist([cbool(b) for b in r]) + " " + clist([cnat(x) for x in ints(nfs)]) + ")"]})
     m = inp["m"]; h, w = len(m), len(m[0]); k = inp.get("k", 0)
-    ma = np.array(m, dtype=bool)
+    ma = np.array(m, dtype=bool); ma0 = ma.copy()
     nontrivial = bool(ma.any() and not ma.all())
     native = vals(h, w, k)
     slim = [native[y][x] + 1000 for y in range(h) for x in range(w) if not m[y][x]]
     if op == "util":
-        s1 = array_2d_util.array_2d_slim_from(array_2d_native=np.array(native, dtype=float), mask_2d=ma)
-        n1 = array_2d_util.array_2d_native_from(array_2d_slim=np.array(slim, dtype=float), mask_2d=ma)
+        an = np.array(native, dtype=float); asl = np.array(slim, dtype=float)
+        s1 = array_2d_util.array_2d_slim_from(array_2d_native=an, mask_2d=ma)
+        n1 = array_2d_util.array_2d_native_from(array_2d_slim=asl, mask_2d=ma)
         idx = mask_2d_util.native_index_for_slim_index_2d_from(mask_2d=ma)
         um = mask_2d_util.mask_slim_indexes_from(mask_2d=ma, return_masked_indexes=False)
         mk = mask_2d_util.mask_slim_indexes_from(mask_2d=ma, return_masked_indexes=True)
+        chk.same("a util function modified its array argument", an, np.array(native, dtype=float))
+        chk.same("a util function modified its array argument", asl, np.array(slim, dtype=float))
+        chk.same("a util function modified its mask argument", ma, ma0)
+        exact(s1); exact(n1)
         out = [ints(s1), ints2(n1), [[int(a), int(b)] for a, b in np.asarray(idx).reshape(-1, 2)], ints(um), ints(mk)]
         cm = cmask(m)
         cases = [f"(KSlimFrom {cm} {cgrid(native)} {cvec(out[0])})",
@@ -119,14 +511,22 @@ def run_case(inp):
                  "(KNativeForSlim " + cm + " " + clist([ctup([cnat(a), cnat(b)]) for a, b in out[2]]) + ")",
                  "(KMaskIdx " + cm + " false " + clist([cnat(x) for x in out[3]]) + ")",
                  "(KMaskIdx " + cm + " true " + clist([cnat(x) for x in out[4]]) + ")"]
-        return {"coq": cases[0], "extra_coq": cases[1:], "out": out, "kind": "util", "nontrivial": nontrivial}
-    mask = aa.Mask2D(mask=ma, pixel_scales=1.0)
-    ni, sn = inp["ni"], inp["sn"]
+        return chk.result({"coq": cases[0], "extra_coq": cases[1:], "out": out, "kind": "util", "nontrivial": nontrivial})
+    mask = make_mask(aa, ma, inp.get("mt", 0))
+    ni, sn = inp["ni"], inp["sn"]; vt = inp.get("vt", 0)
+    nf = bool(inp.get("nf")) and ni
     if op == "array":
-        values = np.array(native if ni else slim, dtype=float)
-        obj = aa.Array2D(values=values.copy(), mask=mask, store_native=sn)
-        os_, on_ = np.array(obj.slim), np.array(obj.native)
-        exact(os_); exact(on_)
+        values = np.array(native if ni else slim, dtype=float) * sc
+        if nf: poison(values, ma)
+        values0 = values.copy()
+        obj = aa.Array2D(values=give(values, vt, sc == 1.0 and not nf, lambda v: aa.Array2D(values=v, mask=mask, store_native=not sn)),
+                         mask=mask, store_native=sn)
+        stored_ok(chk, obj, sn, obj.slim, obj.native, op)
+        os_, on_ = descale(obj.slim, sc), descale(obj.native, sc)
+        chk.same("the caller's values array was modified", values, values0)
+        chk.same("the caller's mask array was modified", ma, ma0)
+        chk.same("the Mask2D was modified", np.array(mask), ma0)
+        chk.same("second read of .slim differs", os_, descale(obj.slim, sc))
         # index views of the mask must agree with the util functions
         di = mask.derive_indexes
         dn = np.asarray(di.native_for_slim).reshape(-1, 2)
@@ -136,21 +536,30 @@ def run_case(inp):
         extra = ["(KNativeForSlim " + cm + " " + clist([ctup([cnat(a), cnat(b)]) for a, b in out[2]]) + ")",
                  "(KMaskIdx " + cm + " false " + clist([cnat(x) for x in out[3]]) + ")",
                  "(KMaskIdx " + cm + " true " + clist([cnat(x) for x in out[4]]) + ")"]
-        return {"coq": coq, "extra_coq": extra, "out": out, "kind": "array", "nontrivial": nontrivial}
+        return chk.result({"coq": coq, "extra_coq": extra, "out": out, "kind": "array", "nontrivial": nontrivial})
     # grid / vector: two planes (y-plane = native values, x-plane = negated + 7)
     ny = native; nx = [[7 - v for v in r] for r in native]
     sy = slim; sx = [7 - v for v in slim]
-    if ni: values = np.stack([np.array(ny, dtype=float), np.array(nx, dtype=float)], axis=-1)
-    else: values = np.stack([np.array(sy, dtype=float), np.array(sx, dtype=float)], axis=-1).reshape(-1, 2)
+    if ni: values = np.stack([np.array(ny, dtype=float), np.array(nx, dtype=float)], axis=-1) * sc
+    else: values = np.stack([np.array(sy, dtype=float), np.array(sx, dtype=float)], axis=-1).reshape(-1, 2) * sc
+    if nf: poison(values, ma)
+    values0 = values.copy()
     if op == "grid":
-        obj = aa.Grid2D(values=values.copy(), mask=mask, store_native=sn)
+        obj = aa.Grid2D(values=give(values, vt, sc == 1.0 and not nf, lambda v: aa.Grid2D(values=v, mask=mask, store_native=not sn)),
+                        mask=mask, store_native=sn)
     else:
         g = aa.Grid2D.from_mask(mask=mask)
-        obj = aa.VectorYX2D(values=values.copy(), grid=g.native if ni else g, mask=mask, store_native=sn)
-    os_, on_ = np.array(obj.slim), np.array(obj.native)
-    exact(os_); exact(on_)
+        gg = g.native if ni else g
+        obj = aa.VectorYX2D(values=give(values, vt, sc == 1.0 and not nf,
+                                        lambda v: aa.VectorYX2D(values=v, grid=gg, mask=mask, store_native=not sn)),
+                            grid=gg, mask=mask, store_native=sn)
+    stored_ok(chk, obj, sn, obj.slim, obj.native, op)
+    os_, on_ = descale(obj.slim, sc), descale(obj.native, sc)
+    chk.same("the caller's values array was modified", values, values0)
+    chk.same("the Mask2D was modified", np.array(mask), ma0)
+    chk.same("second read of .native differs", on_, descale(obj.native, sc))
     os_ = os_.reshape(-1, 2)
     out = [ints(os_[:, 0]), ints(os_[:, 1]), ints2(on_[:, :, 0]), ints2(on_[:, :, 1])]
     coq = (f"(KGrid {cmask(m)} {cbool(ni)} {cbool(sn)} {cgrid(ny)} {cgrid(nx)} {cvec(sy)} {cvec(sx)} "
            f"{cvec(out[0])} {cvec(out[1])} {cgrid(out[2])} {cgrid(out[3])})")
-    return {"coq": coq, "out": out, "kind": op, "nontrivial": nontrivial}
+    return chk.result({"coq": coq, "out": out, "kind": op, "nontrivial": nontrivial})
